@@ -566,6 +566,81 @@ def _field_range(prog, record, field):
     return (min(lo, 0), max(hi, 0))         # zero-initialised storage (calloc, static objects) reads 0 before any store
 
 
+def global_range(prog, v):
+    """[lo, hi] enclosing every value the file-scope integer variable named by the node v can hold, or None: the variable
+    has internal linkage (every store is in its own .c file, hence in sight), its name designates one object in the whole
+    program, its address is never taken (no store through a pointer), it is not volatile, and every store is a plain
+    assignment (its value ranged at the store) or a step (which opens the range in that direction).  The value read is
+    the initialiser's (zero without one) or one some store put there -- whichever thread stored it."""
+    if not (isinstance(v, dict) and v.get('k') == 'var' and v.get('vk') == 'global'):
+        return None
+    name = v['name']
+    cache = prog.__dict__.setdefault('_h18_global_range', {})
+    if name in cache:
+        return cache[name]
+    if ('g', name) in _FR_BUSY:
+        return None
+    _FR_BUSY.add(('g', name))
+    try:
+        cache[name] = _global_range(prog, name)
+    finally:
+        _FR_BUSY.discard(('g', name))
+    return cache[name]
+
+
+def _global_range(prog, name):
+    cands = [g for g in prog.globals.values() if isinstance(g, dict) and g.get('name') == name]
+    if len(cands) != 1 or cands[0].get('extern_decl') or not cands[0].get('static'):
+        return None
+    gl = cands[0]
+    ty = str(gl.get('type') or '')
+    if 'volatile' in ty or ty.replace('const ', '').strip() not in TYPE_SIZE and ty.strip() not in ('_Bool', 'bool'):
+        return None
+    init = gl.get('init')
+    lo = hi = 0
+    if init is not None:
+        i0 = strip(init)
+        if not (isinstance(i0, dict) and i0.get('k') == 'int'):
+            return None
+        lo = hi = i0['v']
+    for g2 in prog.globals.values():
+        if isinstance(g2, dict) and isinstance(g2.get('init'), (dict, list)):
+            if any(y.get('k') == 'var' and y.get('name') == name and y.get('vk') == 'global' for y in walk(g2['init'])):
+                return None                     # named in a file-scope initialiser: its address is published
+
+    def is_it(x):
+        x = strip(x)
+        return isinstance(x, dict) and x.get('k') == 'var' and x.get('vk') == 'global' and x['name'] == name
+    up = down = False
+    for f in prog.all_funcs():
+        V = None
+        for e in f.events():
+            if e['ev'] == 'store' and is_it(e['lhs']):
+                op_ = e.get('op')
+                if op_ in ('++', '--'):
+                    up, down = (up or op_ == '++'), (down or op_ == '--')
+                elif op_ == '=' and 'rhs' in e:
+                    V = V or view_of(prog, f)
+                    r = V.range(e['rhs'], (e['_b'], e['_i']), frozenset({'#fr', name}))
+                    lo, hi = min(lo, r[0]), max(hi, r[1])
+                else:
+                    return None
+            for key in ('lhs', 'rhs', 'args', 'value', 'fnexpr', 'e'):
+                if key in e:
+                    for y in walk(e[key]):
+                        if y.get('k') == 'addr' and isinstance(y.get('e'), dict) and is_it(y['e']):
+                            return None
+        for b in f.blocks.values():
+            c = b.term.get('cond') if b.term else None
+            if c is not None and any(y.get('k') == 'addr' and isinstance(y.get('e'), dict) and is_it(y['e']) for y in walk(c)):
+                return None
+    if up:
+        hi = INF
+    if down:
+        lo = -INF
+    return (lo, hi)
+
+
 def field_pointees(prog, record, field, seen=frozenset(), depth=0):
     """const-table elements (initialiser nodes) a pointer field of a record private to one .c file can designate: the
     union over every store the program makes to it (each judged in the storing function: View.pointees); None when a
@@ -813,6 +888,25 @@ def _only_derefs(x, pname):
             return rec(y.get('e'), under)
         return all(rec(v, False) for kk, v in y.items() if isinstance(v, (dict, list)) and kk != 'sizeof')
     return rec(x, False)
+
+
+def _env_index(idx, env):
+    """(lo, hi) of the index expression `v`, `v + c`, `v - c`, `v + w` under the valuation class env of the path being
+    followed (path_must), or None"""
+    i0 = strip(idx)
+    if not isinstance(i0, dict):
+        return None
+    if i0.get('k') == 'var':
+        v = env.get(i0['name'])
+        return (v[0], v[1]) if v is not None else None
+    if i0.get('k') == 'int':
+        return (i0['v'], i0['v'])
+    if i0.get('k') == 'bin' and i0.get('op') in ('+', '-'):
+        a, b = _env_index(i0['l'], env), _env_index(i0['r'], env)
+        if a is None or b is None:
+            return None
+        return (a[0] + b[0], a[1] + b[1]) if i0['op'] == '+' else (a[0] - b[1], a[1] - b[0])
+    return None
 
 
 class View:
@@ -1079,6 +1173,10 @@ class View:
         if k == 'var':
             tr = type_range(x.get('type') or self.decl.get(x['name'], {}).get('type'))
             name = x['name']
+            if x.get('vk') == 'global' and self.prog is not None and name not in seen and not self._const_global(x):
+                gr = global_range(self.prog, x)
+                if gr is not None:
+                    return (max(gr[0], tr[0]), min(gr[1], tr[1]))
             if not self.is_plain_local(x) or name in seen:
                 return tr
             ds = self.defs_at(name, point)
@@ -1205,7 +1303,7 @@ class View:
             base = self.table_values(x['base'], point, seen, depth + 1, env)
             if base is None:
                 return None
-            iv = env.get(var_name(x['idx'])) if env is not None and var_name(x['idx']) else None
+            iv = _env_index(x['idx'], env) if env is not None else None
             if iv is not None:
                 lo, hi = iv[0], iv[1]                  # the valuation class of the path being followed (path_must)
             else:
@@ -1515,6 +1613,148 @@ def deref_norm(V, x):
                 return out
         return None
     return subst(x, fn) if isinstance(x, dict) else x
+
+
+def _int_node(n):
+    return {'k': 'int', 'v': n, 'type': 'int'}
+
+
+def _plus(a, n):
+    if n == 0:
+        return a
+    a0 = strip(a)
+    if isinstance(a0, dict) and a0.get('k') == 'int':
+        return _int_node(a0['v'] + n)
+    return {'k': 'bin', 'op': '+' if n > 0 else '-', 'l': a, 'r': _int_node(abs(n)), 'type': 'int'}
+
+
+def index_walks(prog, g):
+    """g with every *pointer walk over a const table* restated as an index into that table, or g itself when there is
+    none.  A walker is a plain local (an inlined parameter) P of pointer type every definition of which is `P = T`,
+    `P = &T[c]` or `P = T + c` for one const-qualified file-scope array T, or a step `P++` / `P--` / `P += c`.  A
+    synthetic integer local `P#i` is assigned c next to each such definition and stepped next to each step, and every
+    read of P's value becomes `&T[P#i]` (`*P` is `T[P#i]`, `P[k]` is `T[P#i + k]`, the value of `P++` inside a larger
+    expression, whose step is an event of its own that precedes the use, is `&T[P#i - 1]`).  The analyses that know
+    tables by index (View.table_values, path_must over small index values) then see the walk."""
+    import copy as _copy
+    V0 = view_of(prog, g)
+    walkers = {}
+    for name, ds in V0.defs.items():
+        if not ds or name in V0.escaped or name in V0.root_params:
+            continue
+        lv = strip(ds[0]['lhs'])
+        if not (isinstance(lv, dict) and lv.get('k') == 'var' and lv.get('vk') in ('local', 'param') and '*' in str(lv.get('type', ''))):
+            continue
+        T, ok, inits = None, True, {}
+        for d in ds:
+            op = d.get('op')
+            if op in ('++', '--'):
+                continue
+            if op in ('+=', '-=') and 'rhs' in d and isinstance(strip(d['rhs']), dict) and strip(d['rhs']).get('k') == 'int':
+                continue
+            if op != '=' or 'rhs' not in d or strip(d['lhs']).get('k') != 'var':
+                ok = False
+                break
+            r = strip(d['rhs'])
+            c, t = 0, None
+            if isinstance(r, dict) and r.get('k') == 'var':
+                t = r
+            elif isinstance(r, dict) and r.get('k') == 'addr' and strip(r['e']).get('k') == 'index' \
+                    and isinstance(strip(strip(r['e'])['idx']), dict) and strip(strip(r['e'])['idx']).get('k') == 'int':
+                t, c = strip(strip_load(strip(r['e'])['base'])), strip(strip(r['e'])['idx'])['v']
+            elif isinstance(r, dict) and r.get('k') == 'bin' and r['op'] == '+' and isinstance(strip(r['r']), dict) \
+                    and strip(r['r']).get('k') == 'int':
+                t, c = strip(r['l']), strip(r['r'])['v']
+            init = V0._const_global(t) if isinstance(t, dict) else None
+            if not (isinstance(init, dict) and isinstance(init.get('elems'), list)) or (T is not None and T['name'] != t['name']):
+                ok = False
+                break
+            T = t
+            inits[id(d)] = c
+        if ok and T is not None:
+            walkers[name] = (T, inits)
+    if not walkers:
+        return g
+
+    def ivar(name):
+        return {'k': 'var', 'name': name + '#i', 'vk': 'local', 'type': 'int'}
+
+    def elem(name, off):
+        T = walkers[name][0]
+        et = array_type(T.get('type'))
+        return {'k': 'index', 'base': T, 'idx': _plus({'k': 'load', 'e': ivar(name)}, off), 'type': et[0] if et else ''}
+
+    def wname(x):
+        x = strip(x)
+        return x['name'] if isinstance(x, dict) and x.get('k') == 'var' and x.get('name') in walkers else None
+
+    def pvalue(x):
+        """(walker, offset) when x is the value of a walker: P, P++ (old value), ++P, P + c"""
+        x = strip(x)
+        if not isinstance(x, dict):
+            return None
+        if wname(x):
+            return (x['name'], 0)
+        if x.get('k') == 'incdec' and wname(x['e']):
+            d = 1 if x['op'] == '++' else -1
+            return (wname(x['e']), 0 if x.get('prefix') else -d)
+        if x.get('k') == 'bin' and x['op'] in ('+', '-') and wname(x['l']) and isinstance(strip(x['r']), dict) and strip(x['r']).get('k') == 'int':
+            return (wname(x['l']), strip(x['r'])['v'] * (1 if x['op'] == '+' else -1))
+        return None
+
+    def rw(n):
+        k = n.get('k')
+        if k == 'deref':
+            pv = pvalue(n['e'])
+            if pv:
+                return elem(pv[0], pv[1])
+        if k == 'index':
+            pv = pvalue(n['base'])
+            if pv:
+                el = elem(pv[0], pv[1])
+                i0 = strip(n['idx'])
+                if isinstance(i0, dict) and i0.get('k') == 'int':
+                    el['idx'] = _plus(el['idx'], i0['v'])
+                else:
+                    el['idx'] = {'k': 'bin', 'op': '+', 'l': el['idx'], 'r': subst(n['idx'], rw), 'type': 'int'}
+                return el
+        if k in ('var', 'incdec', 'bin'):
+            pv = pvalue(n)
+            if pv:
+                return {'k': 'addr', 'e': elem(pv[0], pv[1]), 'type': n.get('type', '')}
+        return None
+
+    from ..core import subst
+    g2 = _copy.copy(g)
+    g2.blocks = {}
+    for b, blk in g.blocks.items():
+        nb = _copy.copy(blk)
+        nb.succ = list(blk.succ)
+        nb.term = dict(blk.term) if blk.term else None
+        if nb.term and nb.term.get('cond') is not None:
+            nb.term['cond'] = subst(nb.term['cond'], rw)
+        evs = []
+        for e in blk.events:
+            if e['ev'] == 'store' and wname(e['lhs']) and strip(e['lhs']).get('k') == 'var':
+                name = wname(e['lhs'])
+                evs.append(dict(e))
+                op = e.get('op')
+                x = dict(e, lhs=ivar(name), synthetic=True)
+                if op == '=':
+                    x['rhs'] = _int_node(walkers[name][1][id(e)])
+                evs.append(x)
+                continue
+            ne = dict(e)
+            for key in ('lhs', 'rhs', 'args', 'value', 'fnexpr', 'e'):
+                if key in ne and isinstance(ne[key], (dict, list)):
+                    ne[key] = subst(ne[key], rw)
+            evs.append(ne)
+        for i, e in enumerate(evs):
+            e['_b'], e['_i'] = b, i
+        nb.events = evs
+        g2.blocks[b] = nb
+    g2._preds = None
+    return g2
 
 
 def view_of(prog, g):
